@@ -44,6 +44,7 @@ theorem hists_length (v : Variant) (opts : List Opt) (h : Hists) (now : Int) (op
   | reinstate i => rfl
   | age i => simp [judgeStep, ageHists]
   | failPre i k => rfl
+  | restartPub i => rfl
 
 /-- REFINEMENT, one op: whatever the state (within the invariant), the model's reaction to an op is
     what the text prescribes for the configuration — in the `code` reading of the clause the code
@@ -93,6 +94,7 @@ theorem step_refines_code (opts : List Opt) (f : Family) (h : Hists) (op : Op)
     refine ⟨?_, h3⟩
     simp [h1, h2]
   | failPre i k => simp [Op.plain] at hp
+  | restartPub i => simp [Op.plain] at hp
 
 /-! ### whole runs -/
 
@@ -228,6 +230,7 @@ theorem text_of_code_of_guard (opts : List Opt) (h : Hists) (now : Int) (op : Op
   | reinstate i => exact hc
   | age i => exact hc
   | failPre i k => exact hc
+  | restartPub i => exact hc
   | fail i k =>
     simp only [judgeStep, Bool.and_eq_true] at hc ⊢
     simp only [stepGuard] at hg
